@@ -150,6 +150,9 @@ Proof.
   - (* peer close *) inversion H; subst; clear H. intros c x Hx. simpl in *. destruct (A c x Hx) as [C [B1 B2]].
     split; [assumption|]. unfold bytes_ok, upd. split; [assumption|].
     intros E. destruct (B2 E) as [P Q]. destruct (Nat.eqb (k_conn x) n); auto.
+  - (* peer reset *) inversion H; subst; clear H. intros c x Hx. simpl in *. destruct (A c x Hx) as [C [B1 B2]].
+    split; [assumption|]. unfold bytes_ok, upd. split; [assumption|].
+    intros E. destruct (B2 E) as [P Q]. destruct (Nat.eqb (k_conn x) n); auto.
   - break H. eapply allok_on_ctx; [exact A| |eassumption]. use_local l_wshut_ok l_wshut_same.
   - eapply allok_on_ctx_r; [exact A| |exact H]. use_local_r l_wrel_ok l_wrel_same.
   - break H. eapply allok_on_ctx; [exact A| |eassumption]. use_local l_wrelease_ok l_wrelease_same.
@@ -300,3 +303,34 @@ Proof.
   intros H. destruct (freed_once_at_zero h c x H) as (A & B & C & D & E & F & G & _).
   split; [repeat split; assumption|]. split; [assumption|]. split; assumption.
 Qed.
+
+(* A hang-up closes a context whose CLOSED flag nobody has set (no shutdown by the application,
+   no read that returned 0 or failed) only when every byte the peer sent has been handed to
+   cb_msg already: the bytes readable when the hang-up is reported are offered to the read
+   callback before cb_close (all three back-ends read before they test the flag).  Together with
+   bytes_in_order (a read returning 0 at the end of the stream implies got = sent) this covers
+   every cb_close of a connection that was neither shut down locally nor reset nor in error. *)
+Lemma close_on_hup_after_all_bytes h c x s' r :
+  let s := run init h in
+  step s (EClose c) = Some (s', r) ->
+  nth_error (ctxs s) c = Some x ->
+  k_flag x = false -> preset s (k_conn x) = false ->
+  pclosed s (k_conn x) = true /\ k_got x = sent s (k_conn x).
+Proof.
+  intros s H Hx Hf Hr. destruct (run_allok h init init_allok c x Hx) as [_ [[rest B1] _]]. fold s in B1.
+  unfold step in H. destruct (spc_eqb (pc s) PIdle); [|discriminate]. rewrite Hx in H.
+  unfold on_ctx in H. rewrite Hx in H. unfold l_close, hup_only in H. rewrite Hf, Hr in H. simpl in H.
+  destruct (loc_eqb (k_loc x) LReg); simpl in H; [|discriminate].
+  destruct (pclosed s (k_conn x)); simpl in H; [|discriminate].
+  destruct (Nat.eqb_spec (length (k_got x)) (length (sent s (k_conn x)))) as [E|E]; [|discriminate].
+  split; [reflexivity|]. rewrite B1 in E. rewrite app_length in E.
+  destruct rest; [rewrite B1, app_nil_r; reflexivity|simpl in E; lia].
+Qed.
+
+Example close_on_hup_nonvacuous :
+  let h := [EHalloc KListen 0; EHand 0; ETauWakeBegin; EReg 0 true; EAddctx 0; ETauWakeUnlock; EWake;
+            EAccepted; EAlloc 1; EReg 1 true; EConn 1 5; ESend 5 [1;2;3]%Z; EPclose 5] in
+  (* data and hang-up are both pending: cb_close is not enabled before the bytes are read *)
+  step (run init h) (EClose 1) = None /\
+  (exists s', step (run init (h ++ [EMsg 1; ERd 1 [1;2;3]%Z])) (EClose 1) = Some (s', 0%Z)).
+Proof. vm_compute. split; [reflexivity|eexists; reflexivity]. Qed.
